@@ -1,6 +1,7 @@
 """C02 — CODATA constants and derived aliases: translator + exhaustive correspondence + independent NIST/fractions oracle."""
 from __future__ import annotations
 
+import json
 import math
 import struct
 import sys
@@ -110,7 +111,7 @@ ASSUMPTIONS = [
     "source translation is AST-shaped: a rewrite of context.py that keeps every stored value but leaves the translated language (helper variables, +/-, another loop shape or staging) or re-associates a formula (other than swapping the two operands of a product, which normalisation absorbs) breaks an obligation of Props/C02Src.lean and is reported as `VIOLATION ... no-failing-input-found` naming that obligation, although the property still holds; the remedy is to extend the translator / the `regrouped` list (value equality then still has to hold), never the oracle",
 ]
 RULE = (
-    "exhaustive: for CODATA2014, CODATA2018 and the default singleton, every NIST row name (read by the oracle from raw_data/nist_data/codata-*.txt), "
+    "exhaustive: for CODATA2014, CODATA2018 and the default singleton, every NIST row name (read by the oracle from raw_data/nist_data/codata-*.txt; a row on which that file departs from the reading pinned in harness/data/refpins.json.gz - tools/mk_refpins.py - is judged against the pin, so a consistent edit of raw file and shipped table is still reported), "
     "the calorie-joule relationship, all 27 aliases, the 26 legacy names and 3 derived constants (2018), plus every further key the implementation holds, "
     "x {exact, lower, upper, random mixed case} x {get, get(return_tuple), attribute (name mangled by the harness), pc[...]}; "
     "plus pc key order and attribute-name set per context, near-miss / foreign names (KeyError paths), and a seeded stream of random Decimal "
@@ -186,7 +187,31 @@ DERIVED_NAMES = ["molar Planck constant times c", "Faraday constant for conventi
 REL_TOL = Fraction(1, 10**26)  # three correctly rounded 28-digit operations stay far inside
 
 
+REPINNED = []
+
+
 def nist_table(year: int):
+    """nist_table_raw(year) with every row on which the working tree's raw file departs from the pinned reading of NIST's published
+    table (tools/mk_refpins.py, harness/data/refpins.json.gz) replaced by the PINNED row; a pinned row the raw file lost is re-inserted."""
+    import gzip
+    from pathlib import Path
+
+    rows = nist_table_raw(year)
+    p = Path(__file__).resolve().parent / "data/refpins.json.gz"
+    if not p.exists():
+        return rows
+    pin = [tuple(r) for r in json.loads(gzip.open(p).read())["codata"][str(year)]]
+    if rows != pin:
+        have = {r[0]: r for r in rows}
+        for r in pin:
+            if have.get(r[0]) != r:
+                REPINNED.append((year, r[0], have.get(r[0]), r))
+        extra = [r for r in rows if r[0] not in {q[0] for q in pin}]
+        rows = pin + extra
+    return rows
+
+
+def nist_table_raw(year: int):
     """Independent reading of the raw NIST ASCII table: [(name, value text, uncertainty, unit)]."""
     rows = []
     started = False
@@ -1037,7 +1062,9 @@ def run(ctx: Ctx) -> Outcome:
     import sideeffects
 
     sideeffects.exercise(out)  # header writers / printers / comparison reports before anything is built or looked up
+    REPINNED.clear()
     env = Env()
+    out.distribution["reference:codata_rows_judged_against_the_pin_instead_of_the_working_tree_raw_file"] = len(REPINNED)
     import decimal
 
     dc = decimal.getcontext()
